@@ -3103,7 +3103,22 @@ static hawk_val_t* assign_newmapval_to_var (hawk_rtx_t* rtx, hawk_nde_var_t* var
 }
 
 
-static HAWK_INLINE int delete_indexed (hawk_rtx_t* rtx, hawk_val_t* vv, hawk_nde_var_t* var)
+/* an index expression is arbitrary script code. it may release the variable or
+ * the parent element that owns the container being indexed:
+ *   function f() { @reset m; return 1 }  BEGIN { m[1] = 1; x = m[f()] }
+ * keep a reference on the container while its index is evaluated. one container
+ * is held at a time: the one at the nesting level being resolved. the caller
+ * releases the last one held. */
+#define HOLD_CONTAINER(rtx,held,v) do { \
+	if (*(held) != (v)) \
+	{ \
+		hawk_rtx_refupval (rtx, v); \
+		if (*(held)) hawk_rtx_refdownval (rtx, *(held)); \
+		*(held) = (v); \
+	} \
+} while(0)
+
+static HAWK_INLINE int delete_indexed_held (hawk_rtx_t* rtx, hawk_val_t* vv, hawk_nde_var_t* var, hawk_val_t** held)
 {
 	hawk_map_t* map;
 	hawk_ooch_t* str = HAWK_NULL;
@@ -3125,6 +3140,7 @@ static HAWK_INLINE int delete_indexed (hawk_rtx_t* rtx, hawk_val_t* vv, hawk_nde
 	if (vtype == HAWK_VAL_MAP)
 	{
 		len = HAWK_COUNTOF(idxbuf);
+		HOLD_CONTAINER (rtx, held, vv);
 		str = idxnde_to_str(rtx, var->idx, idxbuf, &len, &remidx, HAWK_NULL);
 		if (HAWK_UNLIKELY(!str)) goto oops;
 		map = ((hawk_val_map_t*)vv)->map;
@@ -3132,6 +3148,7 @@ static HAWK_INLINE int delete_indexed (hawk_rtx_t* rtx, hawk_val_t* vv, hawk_nde
 	else
 	{
 		HAWK_ASSERT (vtype == HAWK_VAL_ARR);
+		HOLD_CONTAINER (rtx, held, vv);
 		idx = idxnde_to_int(rtx, var->idx, &remidx);
 		if (HAWK_UNLIKELY(idx <= -1)) goto oops;
 		arr = ((hawk_val_arr_t*)vv)->arr;
@@ -3161,6 +3178,7 @@ static HAWK_INLINE int delete_indexed (hawk_rtx_t* rtx, hawk_val_t* vv, hawk_nde
 			val_map:
 				if (str && str != idxbuf) hawk_rtx_freemem (rtx, str);
 				len = HAWK_COUNTOF(idxbuf);
+				HOLD_CONTAINER (rtx, held, vv);
 				str = idxnde_to_str(rtx, remidx, idxbuf, &len, &remidx, HAWK_NULL);
 				if (HAWK_UNLIKELY(!str)) goto oops;
 				map = ((hawk_val_map_t*)vv)->map;
@@ -3168,6 +3186,7 @@ static HAWK_INLINE int delete_indexed (hawk_rtx_t* rtx, hawk_val_t* vv, hawk_nde
 
 			case HAWK_VAL_ARR:
 			val_arr:
+				HOLD_CONTAINER (rtx, held, vv);
 				idx = idxnde_to_int(rtx, remidx, &remidx);
 				if (HAWK_UNLIKELY(idx <= -1)) goto oops;
 				arr = ((hawk_val_arr_t*)vv)->arr;
@@ -3211,6 +3230,17 @@ static HAWK_INLINE int delete_indexed (hawk_rtx_t* rtx, hawk_val_t* vv, hawk_nde
 oops:
 	if (str && str != idxbuf) hawk_rtx_freemem (rtx, str);
 	return -1;
+}
+
+
+static HAWK_INLINE int delete_indexed (hawk_rtx_t* rtx, hawk_val_t* vv, hawk_nde_var_t* var)
+{
+	hawk_val_t* held = HAWK_NULL;
+	int n;
+
+	n = delete_indexed_held(rtx, vv, var, &held);
+	if (held) hawk_rtx_refdownval (rtx, held);
+	return n;
 }
 
 static int run_delete (hawk_rtx_t* rtx, hawk_nde_delete_t* nde)
@@ -3944,7 +3974,11 @@ static hawk_val_t* eval_assignment (hawk_rtx_t* rtx, hawk_nde_t* nde)
 	}
 
 	ret = do_assignment(rtx, ass->left, val);
-	hawk_rtx_refdownval (rtx, val);
+	/* the value is returned to the caller. it is normally owned by the target
+	 * of the assignment by now. if the target has gone while its index was
+	 * evaluated, nothing owns it. don't let it be freed here. */
+	if (ret == val) hawk_rtx_refdownval_nofree (rtx, val);
+	else hawk_rtx_refdownval (rtx, val);
 
 	return ret;
 }
@@ -4148,7 +4182,7 @@ static hawk_val_t* do_assignment_nonindexed (hawk_rtx_t* rtx, hawk_nde_var_t* va
 	return val;
 }
 
-static hawk_val_t* do_assignment_indexed (hawk_rtx_t* rtx, hawk_nde_var_t* var, hawk_val_t* val)
+static hawk_val_t* do_assignment_indexed_held (hawk_rtx_t* rtx, hawk_nde_var_t* var, hawk_val_t* val, hawk_val_t** held)
 {
 	hawk_map_t* map;
 	hawk_ooch_t* str = HAWK_NULL;
@@ -4184,12 +4218,14 @@ static hawk_val_t* do_assignment_indexed (hawk_rtx_t* rtx, hawk_nde_var_t* var, 
 			if (vtype == HAWK_VAL_MAP)
 			{
 				len = HAWK_COUNTOF(idxbuf);
+				HOLD_CONTAINER (rtx, held, vv);
 				str = idxnde_to_str(rtx, var->idx, idxbuf, &len, &remidx, HAWK_NULL);
 				if (HAWK_UNLIKELY(!str)) goto oops;
 				map = ((hawk_val_map_t*)vv)->map;
 			}
 			else
 			{
+				HOLD_CONTAINER (rtx, held, vv);
 				idx = idxnde_to_int(rtx, var->idx, &remidx);
 				if (idx <= -1) goto oops;
 				arr = ((hawk_val_arr_t*)vv)->arr;
@@ -4219,6 +4255,7 @@ static hawk_val_t* do_assignment_indexed (hawk_rtx_t* rtx, hawk_nde_var_t* var, 
 					val_map:
 						if (str != idxbuf) hawk_rtx_freemem (rtx, str);
 						len = HAWK_COUNTOF(idxbuf);
+						HOLD_CONTAINER (rtx, held, vv);
 						str = idxnde_to_str(rtx, remidx, idxbuf, &len, &remidx, HAWK_NULL);
 						if (HAWK_UNLIKELY(!str)) goto oops;
 						map = ((hawk_val_map_t*)vv)->map;
@@ -4226,6 +4263,7 @@ static hawk_val_t* do_assignment_indexed (hawk_rtx_t* rtx, hawk_nde_var_t* var, 
 
 					case HAWK_VAL_ARR:
 					val_arr:
+						HOLD_CONTAINER (rtx, held, vv);
 						idx = idxnde_to_int(rtx, remidx, &remidx);
 						if (idx <= -1) goto oops;
 						arr = ((hawk_val_arr_t*)vv)->arr;
@@ -4313,6 +4351,22 @@ static hawk_val_t* do_assignment_indexed (hawk_rtx_t* rtx, hawk_nde_var_t* var, 
 oops:
 	if (str && str != idxbuf) hawk_rtx_freemem (rtx, str);
 	return HAWK_NULL;
+}
+
+
+static hawk_val_t* do_assignment_indexed (hawk_rtx_t* rtx, hawk_nde_var_t* var, hawk_val_t* val)
+{
+	hawk_val_t* held = HAWK_NULL, * v;
+
+	v = do_assignment_indexed_held(rtx, var, val, &held);
+	if (held)
+	{
+		/* the value stored may be owned by the container only at this point */
+		if (v) hawk_rtx_refupval (rtx, v);
+		hawk_rtx_refdownval (rtx, held);
+		if (v) hawk_rtx_refdownval_nofree (rtx, v);
+	}
+	return v;
 }
 
 static hawk_val_t* do_assignment_positional (hawk_rtx_t* rtx, hawk_nde_pos_t* pos, hawk_val_t* val)
@@ -7711,7 +7765,7 @@ static hawk_val_t* eval_arg (hawk_rtx_t* rtx, hawk_nde_t* nde)
 	return HAWK_RTX_STACK_ARG(rtx, ((hawk_nde_var_t*)nde)->id.idxa);
 }
 
-static hawk_val_t* eval_indexed (hawk_rtx_t* rtx, hawk_nde_var_t* var)
+static hawk_val_t* eval_indexed_held (hawk_rtx_t* rtx, hawk_nde_var_t* var, hawk_val_t** held)
 {
 	hawk_map_t* map; /* containing map */
 	hawk_ooch_t* str = HAWK_NULL;
@@ -7742,12 +7796,14 @@ static hawk_val_t* eval_indexed (hawk_rtx_t* rtx, hawk_nde_var_t* var)
 		case HAWK_VAL_MAP:
 		init_val_map:
 			len = HAWK_COUNTOF(idxbuf);
+			HOLD_CONTAINER (rtx, held, v);
 			str = idxnde_to_str(rtx, var->idx, idxbuf, &len, &remidx, HAWK_NULL);
 			if (HAWK_UNLIKELY(!str)) goto oops;
 			map = ((hawk_val_map_t*)v)->map;
 			break;
 
 		case HAWK_VAL_ARR:
+			HOLD_CONTAINER (rtx, held, v);
 			idx = idxnde_to_int(rtx, var->idx, &remidx);
 			if (idx <= -1) goto oops;
 			arr = ((hawk_val_arr_t*)v)->arr;
@@ -7782,6 +7838,7 @@ static hawk_val_t* eval_indexed (hawk_rtx_t* rtx, hawk_nde_var_t* var)
 			val_map:
 				if (str && str != idxbuf) hawk_rtx_freemem (rtx, str);
 				len = HAWK_COUNTOF(idxbuf);
+				HOLD_CONTAINER (rtx, held, v);
 				str = idxnde_to_str(rtx, remidx, idxbuf, &len, &remidx, HAWK_NULL);
 				if (HAWK_UNLIKELY(!str)) goto oops;
 				map = ((hawk_val_map_t*)v)->map;
@@ -7789,6 +7846,7 @@ static hawk_val_t* eval_indexed (hawk_rtx_t* rtx, hawk_nde_var_t* var)
 
 			case HAWK_VAL_ARR:
 			val_arr:
+				HOLD_CONTAINER (rtx, held, v);
 				idx = idxnde_to_int(rtx, remidx, &remidx);
 				if (HAWK_UNLIKELY(idx <= -1)) goto oops;
 				arr = ((hawk_val_arr_t*)v)->arr;
@@ -7852,6 +7910,22 @@ oops:
 	return HAWK_NULL;
 
 
+}
+
+
+static hawk_val_t* eval_indexed (hawk_rtx_t* rtx, hawk_nde_var_t* var)
+{
+	hawk_val_t* held = HAWK_NULL, * v;
+
+	v = eval_indexed_held(rtx, var, &held);
+	if (held)
+	{
+		/* the element found may be owned by the container only */
+		if (v) hawk_rtx_refupval (rtx, v);
+		hawk_rtx_refdownval (rtx, held);
+		if (v) hawk_rtx_refdownval_nofree (rtx, v);
+	}
+	return v;
 }
 
 static hawk_val_t* eval_namedidx (hawk_rtx_t* rtx, hawk_nde_t* nde)
